@@ -122,7 +122,9 @@ fn genp(prop: &str, seed: u64, tier: &str) -> Plan {
     ];
     let mut writers = vec![];
     for w in 0..n_writers {
-        let autodispose = if prop == "C22" { r.chance(0.5) } else { true };
+        // (C20 too: without autodispose an unregister ends in NOT_ALIVE_NO_WRITERS, so the no_writers generation count
+        // takes part in the generation ranks)
+        let autodispose = if prop == "C22" || (prop == "C20" && state_changes) { r.chance(0.5) } else { true };
         let mut q = Q { reliable: Some(true), history: Some(0), mbt_ms: Some(-1), autodispose: Some(autodispose), by_source: rq.by_source, ..wq_extra.clone() };
         if writer_limits {
             q.history = Some(0);
